@@ -29,6 +29,8 @@ func runC10(c *Ctx) {
 	R.Rule("C10.R6", "kept declarations stay in parse order: the kept list is only appended to inside the declaration loop and no sorting/reordering call occurs in sanitizeStyles")
 	R.Rule("C10.R7", "no two keys of a rule table share one mutable entry: every map stored as a table entry is created by a make that is stored by exactly that one update and lies inside every loop containing the update")
 	sharedEntryRule(c, "C10.R7", styleTables, "a style rule registered later for one element is applied to the others too")
+	R.Rule("C10.R9", "the default handler is the last resort: css.GetDefaultHandler(property) is stored into a style rule only on paths where the builder's handler is nil, its enum empty and its regexp nil — next to a user-supplied matcher it would take precedence in sanitizeStyles")
+	defaultHandlerLastResort(c, "C10.R9")
 	R.Rule("C10.R8", "one matcher per property: in the style builders a style rule value that is modified inside a loop is created in that loop, so the default handler chosen for one property is never carried over to the next")
 	freshRulePerIteration(c, "C10.R8")
 	R.Assume(TrustGo, "douceur ParseDeclarations is total and returns declarations in source order", "that the emitted original declaration means to a browser what the transformed copy the matcher saw means (CSS escapes/comments/!important) is NOT decided", "user-supplied handlers are pure")
